@@ -86,6 +86,10 @@ func (w *World) NewEntities(count int, fn func(entity Entity)) {
 func (w *World) CopyEntity(e Entity) Entity {
 	w.checkLocked()
 
+	if !w.Alive(e) {
+		panic("can't copy a dead entity")
+	}
+
 	s := &w.storage
 	entity := s.entityPool.Get()
 
